@@ -192,6 +192,8 @@ func startGRPC(t *testing.T) *grpcHarness {
 			panic(err)
 		}
 		cfg.Proxy.Strategy = "rr"
+		// different limits for the two directions (they are separate options)
+		cfg.Proxy.GRPCMaxRxMsgSize, cfg.Proxy.GRPCMaxTxMsgSize = grpcRxLimit(), grpcTxLimit()
 		dp := metrics.DiscardProvider{}
 		sh := &proxy.GrpcStatsHandler{Connect: dp.NewCounter("c"), Request: dp.NewHistogram("r"), NoRoute: dp.NewCounter("n"), Status: dp.NewHistogram("s", "code")}
 		srv := grpc.NewServer(newGrpcProxy(cfg, nil, sh)...)
@@ -213,7 +215,13 @@ func startGRPC(t *testing.T) *grpcHarness {
 // ---------------------------------------------------------------------------
 // generators
 
-// genProtoMessage builds a well-formed protobuf wire message from random fields.
+// message size limits configured on the proxy: requests may use the receive
+// limit, responses the (smaller) send limit
+func grpcRxLimit() int { return hx.Pick(160<<10, 4<<20) }
+func grpcTxLimit() int { return hx.Pick(80<<10, 2<<20) }
+
+// genProtoMessage builds a well-formed protobuf wire message of at most
+// maxLen bytes from random fields.
 func genProtoMessage(t *rapid.T, label string, maxLen int) []byte {
 	var b []byte
 	varint := func(v uint64) {
@@ -244,7 +252,10 @@ func genProtoMessage(t *rapid.T, label string, maxLen int) []byte {
 			case 3:
 				n = rapid.IntRange(301, 20000).Draw(t, label+"mid")
 			default:
-				n = rapid.IntRange(20001, maxLen).Draw(t, label+"large")
+				n = rapid.IntRange(20001, max(20002, maxLen)).Draw(t, label+"large")
+			}
+			if room := maxLen - len(b) - 16; n > room {
+				n = max(0, room)
 			}
 			varint(field<<3 | 2)
 			varint(uint64(n))
@@ -375,7 +386,7 @@ func TestC16Calls(t *testing.T) {
 			case 4:
 				dsthost = []string{"beta", "x"}
 			}
-			maxLen := hx.Pick(65536, 3<<20)
+			reqMax, respMax := grpcRxLimit()-4096, grpcTxLimit()-4096
 			var reqs [][]byte
 			shape := rapid.SampledFrom([]string{"unary", "client-stream", "server-stream", "bidi"}).Draw(t, "shape")
 			nreq, nresp := 1, 1
@@ -386,11 +397,11 @@ func TestC16Calls(t *testing.T) {
 				nresp = rapid.IntRange(0, 20).Draw(t, "nresp")
 			}
 			for i := 0; i < nreq; i++ {
-				reqs = append(reqs, genProtoMessage(t, "req", maxLen))
+				reqs = append(reqs, genProtoMessage(t, "req", reqMax))
 			}
 			sc := callScript{respHeaders: genMD(t, "rh"), respTrailers: genMD(t, "rt"), interleaved: rapid.Bool().Draw(t, "interleaved")}
 			for i := 0; i < nresp; i++ {
-				sc.responses = append(sc.responses, genProtoMessage(t, "resp", maxLen))
+				sc.responses = append(sc.responses, genProtoMessage(t, "resp", respMax))
 			}
 			if rapid.IntRange(0, 2).Draw(t, "fail") == 0 {
 				sc.code = codes.Code(rapid.IntRange(1, 16).Draw(t, "code"))
@@ -495,6 +506,11 @@ func TestC16Calls(t *testing.T) {
 				}
 			}
 			hx.Class("shape:" + shape)
+			for _, m := range reqs {
+				if len(m) > grpcTxLimit() {
+					hx.Class("request-larger-than-the-send-limit")
+				}
+			}
 			if len(reqs) >= 2 || len(sc.responses) >= 2 || (sc.code != codes.OK && len(sc.respTrailers) > 0) || c > 0 {
 				hx.NonTrivial(fmt.Sprintf("%s|%s|%v|%d|%d|%v|%d", gt.text, method, dsthost, len(reqs), len(sc.responses), sc.code, c))
 				hx.Class("nontrivial")
@@ -614,6 +630,62 @@ func TestC16Pool(t *testing.T) {
 	if served[0] != 10 || served[2] != 10 {
 		t.Fatalf("20 round-robin calls to a service with two instances were served %v, want 10 each by backends 0 and 2", served)
 	}
+	// outage and recovery of one backend: still one connection afterwards, none after it leaves the table
+	set(0, 1)
+	if err := call("/pool.S1/M"); err != nil {
+		t.Fatalf("call before the outage failed: %v", err)
+	}
+	addr1 := b1.ln.Addr().String()
+	b1.srv.Stop()
+	for i := 0; i < 4; i++ {
+		if err := call("/pool.S1/M"); err == nil {
+			t.Fatalf("call to a stopped backend succeeded")
+		}
+		time.Sleep(50 * time.Millisecond)
+	}
+	ln1, err := net.Listen("tcp", addr1)
+	if err != nil {
+		t.Fatalf("VERIF-INCONCLUSIVE cannot re-listen on %s: %v", addr1, err)
+	}
+	nb := &grpcBackend{idx: 1, ln: ln1}
+	nb.srv = grpc.NewServer(grpc.ForceServerCodec(rawCodec{}), grpc.UnknownServiceHandler(h.handler(nb)), grpc.StatsHandler(connStats{nb}), grpc.MaxRecvMsgSize(8<<20))
+	go nb.srv.Serve(ln1)
+	h.backends[1] = nb
+	recovered := false
+	for deadline := time.Now().Add(20 * time.Second); time.Now().Before(deadline); time.Sleep(100 * time.Millisecond) {
+		if err := call("/pool.S1/M"); err == nil {
+			recovered = true
+			break
+		}
+	}
+	if !recovered {
+		t.Fatalf("calls do not recover after the backend came back")
+	}
+	for i := 0; i < 10; i++ {
+		if err := call("/pool.S1/M"); err != nil {
+			t.Fatalf("call after recovery failed: %v", err)
+		}
+	}
+	time.Sleep(1500 * time.Millisecond) // connections that are still reconnecting in the background show up
+	if open := atomic.LoadInt64(&nb.begins) - atomic.LoadInt64(&nb.ends); open > 1 {
+		t.Fatalf("after an outage and recovery the proxy holds %d connections to one backend", open)
+	}
+	set(0)
+	gone := false
+	for deadline := time.Now().Add(11 * time.Second); time.Now().Before(deadline); time.Sleep(100 * time.Millisecond) {
+		if atomic.LoadInt64(&nb.begins) == atomic.LoadInt64(&nb.ends) {
+			gone = true
+			break
+		}
+	}
+	if !gone {
+		t.Fatalf("%d connection(s) to a backend that left the table are still open 11s later (after an outage/recovery)", atomic.LoadInt64(&nb.begins)-atomic.LoadInt64(&nb.ends))
+	}
+	time.Sleep(1200 * time.Millisecond)
+	if atomic.LoadInt64(&nb.begins) != atomic.LoadInt64(&nb.ends) {
+		t.Fatalf("a connection to a backend that left the table was re-established")
+	}
+	hx.Class("pool-outage-recovery")
 	// coming back works
 	set(0, 1)
 	if err := call("/pool.S1/M"); err != nil {
